@@ -153,6 +153,17 @@ func (ec *evalCache) deletePod(p *k8s.Pod, podName string) {
 	}
 }
 
+// replacePod is called when an existing pod object is replaced by an updated one:
+// un-associates the old pod object from its owner, and deletes the cached results of that owner,
+// since these were computed with the old pod object (e.g. its container ports)
+func (ec *evalCache) replacePod(oldPod *k8s.Pod, podName string) {
+	if ec.cache == nil {
+		return
+	}
+	ec.deletePod(oldPod, podName)
+	ec.deleteWorkload(getPodOwnerKey(oldPod))
+}
+
 // deleteWorkload: delete cache keys containing the workload key string in a cached connection
 func (ec *evalCache) deleteWorkload(key string) {
 	cacheKeys := ec.cache.Keys()
